@@ -77,7 +77,7 @@ def interp_set(db, f, p4):
     this = Obj("IndexContainer4", **{IC4 + "::ElementsMap": {}, IC4 + "::NonTrivialElements": {}, IC4 + "::pSource": Obj("source")})
     ip = Interp(db, prims)
     try:
-        ip.call_fn(f, [FObj("IC4", **{IDX[k]: orig[k] for k in range(4)})], this=this)
+        ret_ = ip.call_fn(f, [FObj("IC4", **{IDX[k]: orig[k] for k in range(4)})], this=this)
     except Thrown as t:
         raise AnalysisBroken("%s: interpreted summary throws %s at %s" % (f.qn, t.tt, t.where))
     ents = []
@@ -87,7 +87,12 @@ def interp_set(db, f, p4):
         ents.append((tuple(K.f[q] for q in IDX), v.f["perm"], v.f["elem"] is elem))
     nte = this.f[IC4 + "::NonTrivialElements"]
     nte_ok = len(nte) == 1 and all(tuple(K.f[q] for q in IDX) == orig and v is elem for K, v in nte.items())
-    return {"orig": orig, "entries": sorted(ents), "nte_ok": nte_ok}
+    # which entry does the call hand back?  (identity of the returned wrapper among the stored ones)
+    ret_key = None
+    for K, v in this.f[IC4 + "::ElementsMap"].items():
+        if v is ret_:
+            ret_key = tuple(K.f[q] for q in IDX)
+    return {"orig": orig, "entries": sorted(ents), "nte_ok": nte_ok, "ret_key": ret_key, "ret_is_entry": ret_key is not None}
 
 
 def check_default_quadruples(r7, db, cfgname):
@@ -333,6 +338,19 @@ def body(chk, db, cfgname):
                 src = rk[3]
             elif rk[0] == "op" and rk[1] == "[]" and rk[2] == EMAP:
                 src = rk[3]
+            if src is None and strip_targs(f.name).endswith("::set"):
+                # the returned iterator is a re-assigned local (or reached in another way): decide by interpreting set() on four
+                # distinct indices -- the wrapper it hands back must be the entry stored under the requested quadruple itself
+                ir_ = interp_set(db, f, p4)
+                if ir_["ret_key"] == ir_["orig"]:
+                    verdict = verdict or ("ok", j, None)
+                elif ir_["ret_key"] is not None:
+                    verdict = ("bad", j, "set(i,j,k,l) on four distinct indices hands back the entry stored under the index order %s, not the one under the requested quadruple: the caller of the first on-demand lookup evaluates "
+                                         "another exchange-related component (frequency permutation and sign of that order); a second lookup finds the right entry -- the value depends on the request history (interpreted summary)" % (
+                                             [ir_["orig"].index(v_) + 1 for v_ in ir_["ret_key"]],))
+                else:
+                    raise AnalysisBroken("%s: the value returned by set() is not one of the stored entries" % f.qn)
+                continue
             if src is None:
                 raise AnalysisBroken("%s: returned expression %s is not an entry of ElementsMap obtained by insert/find/at" % (f.qn, f.s(f.nodes[j]["sub"])[:80]))
             sc_ = comps(src)
